@@ -60,17 +60,25 @@ mutual
     | e :: es => noIfExpr e && noIfExprs es
 end
 
+theorem singleName_eq {ts : List Expr} {x : Str} (h : singleName ts = some x) : ts = [.name x] := by
+  unfold singleName at h
+  split at h
+  · cases h; rfl
+  · cases h
+
 def fragAStmt : Stmt → Bool
   | .expr e => fragAExpr e
-  | .assign [.name x] e => simpleName x && fragAExpr e
+  | .assign ts e => (match singleName ts with | some x => simpleName x | none => false) && fragAExpr e
   | .pass => true
   | .located _ s => fragAStmt s
   | _ => false
 
-def noIfStmt : Stmt → Bool
+/-- no conditional expression (every read is executed) and no `__all__ = [...]` (whose entries the analysis
+    treats as reads although nothing is looked up at run time) -/
+def plainStmt : Stmt → Bool
   | .expr e => noIfExpr e
-  | .assign _ e => noIfExpr e
-  | .located _ s => noIfStmt s
+  | .assign ts e => noIfExpr e && (singleName ts != some "__all__".toList)
+  | .located _ s => plainStmt s
   | _ => true
 
 def fragA (prog : List Stmt) : Bool := prog.all fragAStmt
